@@ -242,6 +242,15 @@ func (interp *Interpreter) gta(root *node, rpath, importPath, pkgName string) ([
 			} else {
 				ipath = constToString(n.child[0].rval)
 			}
+			rpath := rpath
+			if isPathRelative(ipath) {
+				// A relative path is relative to the importing package. Identify the package by
+				// its path from the main package, so that a directory is only one package.
+				if rpath == mainID {
+					rpath = "."
+				}
+				ipath, rpath = relativePath(rpath, ipath), mainID
+			}
 			// Try to import a binary package first, or a source package
 			var pkgName string
 			if packageName := path.Base(ipath); path.Dir(ipath) == packageName && interp.binPkg[packageName] != nil {
